@@ -280,10 +280,14 @@ pub fn expected(op: &Op, vals: &[Val]) -> Result<String, String> {
     }
     let loc = LOCALES[op.locale];
     let r = match op.route {
-        Route::KeyString => fixture::reference(KEYS[op.idx].spec, loc, &vals[op.val]).map(|s| format!("{loc}|{s}")),
+        // a key declared only in the default locale shows the default locale's text, formatted for the rendered locale
+        Route::KeyString => fixture::reference(KEYS[op.idx].spec, loc, &vals[op.val]).map(|s| format!("{}|{s}", if KEYS[op.idx].only_in_default { "en" } else { loc })),
         // tachys renders an empty dynamic text node as a single space (so that the node exists for hydration):
         // that is Leptos' HTML rendering, not the formatter's output
-        Route::KeyView => fixture::reference(KEYS[op.idx].spec, loc, &vals[op.val]).map(|s| if s.is_empty() { format!("{loc}| ") } else { format!("{loc}|{s}") }),
+        Route::KeyView => {
+            let tag = if KEYS[op.idx].only_in_default { "en" } else { loc };
+            fixture::reference(KEYS[op.idx].spec, loc, &vals[op.val]).map(|s| if s.is_empty() { format!("{tag}| ") } else { format!("{tag}|{s}") })
+        }
         Route::Site => fixture::reference(SITES[op.idx].spec, loc, &vals[op.val]),
         Route::CtxView => {
             let view = |l: &str| fixture::reference(SITES[op.idx].spec, l, &vals[op.val]).map(|s| if s.is_empty() { " ".to_string() } else { s });
